@@ -51,9 +51,10 @@ def cSupportedCases : List (Option Ty) → Bool
 end
 
 mutual
-/-- every flags type has at most 32 members (the component-model limit enforced by the validator) -/
+/-- every flags type has between 1 and 32 members (the component-model limits enforced by the
+validator; WIT has no empty flags) -/
 def flagsLe32 : Ty → Bool
-  | .flags n => n ≤ 32
+  | .flags n => 0 < n && n ≤ 32
   | .list e | .flist e _ | .option e => flagsLe32 e
   | .map k v => flagsLe32 k && flagsLe32 v
   | .record fs | .tuple fs => flagsLe32All fs
